@@ -205,9 +205,10 @@ pub struct Sess<'a> {
 pub fn emit_fs(t: &mut Trace, xdg: &Path) {
     let ud = user_dir(xdg);
     let sel = ud.join("phonetic-candidate-selection.json");
-    match std::fs::read(&sel).ok().and_then(|b| serde_json::from_slice::<HashMap<String, String>>(&b).ok()) {
+    match std::fs::read(&sel).ok().map(|b| serde_json::from_slice::<HashMap<String, String>>(&b).ok()) {
         None => t.line("fs-sel -"),
-        Some(m) => {
+        Some(None) => t.line("fs-sel !"),
+        Some(Some(m)) => {
             let mut kv: Vec<_> = m.into_iter().collect(); kv.sort();
             let mut s = "fs-sel =".to_string();
             for (k, v) in kv { s.push(' '); s.push_str(&esc(&k)); s.push(' '); s.push_str(&esc(&v)); }
